@@ -345,6 +345,12 @@ fn gen_e(rng: &mut Rng, nt: usize, nr: usize, depth: u32) -> E {
         6 => E::Star(Box::new(gen_e(rng, nt, nr, depth - 1))),
         7 => E::Plus(Box::new(gen_e(rng, nt, nr, depth - 1))),
         _ => {
+            if rng.chance(1, 5) {
+                // wide bounded repetition of a terminal (the builder expands n >= 12 differently)
+                let m = rng.below(4) as u32;
+                let n = m + 9 + rng.below(17) as u32;
+                return E::Rep(Box::new(E::T(rng.below(nt))), m, Some(n));
+            }
             let m = rng.below(3) as u32;
             let n = if rng.chance(1, 4) { None } else { Some(m + rng.below(3) as u32) };
             let n = if n == Some(0) { Some(1) } else { n };
